@@ -26,7 +26,8 @@ def seeds_of(prop):
     if os.path.exists(ip):
         for h, e in json.load(open(ip)).items():
             if e['property'] == prop:
-                out.append(('regress/' + h, os.path.join(V, 'seeded', 'regress', h + '.diff'), 'break'))
+                ad = os.path.join(V, 'seeded', 'regress', h + '.adapted.diff')
+                out.append(('regress/' + h, ad if os.path.exists(ad) else os.path.join(V, 'seeded', 'regress', h + '.diff'), 'break'))
     # seeds of sibling properties whose mechanism this property's check also decides (meta.json: also_checked_by)
     return out
 
